@@ -49,8 +49,8 @@ def r1(ctx):
     ctx.check('spawner_task|time-reset-after-attempt', len(resets) == 1 and all(must_pass_block_from(b, ts.bb, r, [resets[0][0]]) for r in recv)
               and S(b._def_term(resets[0], ())) == 'Instant::now()', 'last_ticket_time is not reset to now after an attempt', sample=len(resets))
     to = one(b.calls(r'tokio::time::timeout::timeout$|time::timeout$'), 'timeout call')
-    a = N(b.call_args(to)[0])
-    ctx.check('spawner_task|bounded-wait', re.match(r'^Duration::saturating_sub\(NETWORK_WAIT_PERIOD=.*, Instant::elapsed\((last_ticket_time.*|Instant::now\(\))\)\)$', a) is not None, 'wait bound is `%s`' % a, to.where(), sample=a[:140])
+    a = S(b.call_args(to)[0])
+    ctx.check('spawner_task|bounded-wait', re.match(r'^Duration::saturating_sub\(NETWORK_WAIT_PERIOD=.*, Instant::elapsed\((\w+\{?.*|Instant::now\(\))\)\)$', a) is not None and 'Instant::now()' in a, 'wait bound is `%s`' % a, to.where(), sample=a[:140])
     ctx.guard(b, to, 'no-ticket', lambda f: f.kind == 'bool' and not f.pol and re.match(r'^%s\b' % re.escape(fl), tstr(f.term)) is not None, key='spawner_task|timeout|no-ticket')
     c = P.const('ntpd::daemon::system::NETWORK_WAIT_PERIOD')
     nb = [x for x in P.bodies.values() if x.npath == 'ntpd::daemon::system::NETWORK_WAIT_PERIOD']
